@@ -5,6 +5,7 @@ package eng
 
 import (
 	"fmt"
+	"os"
 	"go/ast"
 	"go/token"
 	"go/types"
@@ -48,6 +49,7 @@ func NewCtx(p *load.Program) *Ctx {
 		}
 		return a.String() < b.String()
 	})
+	c.detectRenames()
 	for _, fn := range c.all {
 		n := Name(fn)
 		if _, dup := c.byName[n]; !dup {
@@ -88,6 +90,20 @@ func Name(fn *ssa.Function) string {
 	if fn == nil {
 		return "<nil>"
 	}
+	if len(renamed) > 0 {
+		// a function that was renamed since the baseline keeps its baseline name in all rule tables
+		out := fn
+		for out.Parent() != nil {
+			out = out.Parent()
+		}
+		if old, ok := renamed[out]; ok {
+			return old + strings.TrimPrefix(rawName(fn), rawName(out))
+		}
+	}
+	return rawName(fn)
+}
+
+func rawName(fn *ssa.Function) string {
 	s := fn.String()
 	if o := fn.Origin(); o != nil {
 		s = o.String()
@@ -222,4 +238,101 @@ func (c *Ctx) FuncDecl(fn *ssa.Function) *ast.FuncDecl {
 		return d
 	}
 	return nil
+}
+
+// ---------------------------------------------------------------------------
+// rename tolerance
+
+// BaselinePath is the committed list "<canonical name>\t<signature>" of dolt's declared functions at the
+// time the rule tables were written (generated by `dvcheck baseline`).  It is used for one thing only: a
+// function that disappeared from the list while exactly one new function with the same package, receiver
+// and signature appeared is treated as a rename and keeps its baseline name in every rule table, so that a
+// pure rename does not turn anchors into "undecided".
+var BaselinePath string
+
+var renamed = map[*ssa.Function]string{}
+
+// Renames reports the detected renames (new name -> baseline name) for the evidence file.
+func (c *Ctx) Renames() map[string]string {
+	out := map[string]string{}
+	for f, old := range renamed {
+		out[rawName(f)] = old
+	}
+	return out
+}
+
+func sigKey(fn *ssa.Function) string {
+	recv := ""
+	if r := fn.Signature.Recv(); r != nil {
+		recv = shortType(r.Type())
+	}
+	pk := ""
+	if p := FuncPkg(fn); p != nil {
+		pk = p.Path()
+	}
+	return pk + "|" + recv + "|" + types.TypeString(fn.Signature, func(p *types.Package) string { return p.Path() })
+}
+
+// BaselineLines renders the baseline for the currently loaded program.
+func (c *Ctx) BaselineLines() []string {
+	var out []string
+	for _, fn := range c.all {
+		if fn.Parent() != nil || strings.HasPrefix(fn.Synthetic, "instance of") {
+			continue
+		}
+		out = append(out, rawName(fn)+"\t"+sigKey(fn))
+	}
+	sort.Strings(out)
+	return out
+}
+
+func (c *Ctx) detectRenames() {
+	renamed = map[*ssa.Function]string{}
+	if BaselinePath == "" {
+		return
+	}
+	b, err := os.ReadFile(BaselinePath)
+	if err != nil {
+		return
+	}
+	base := map[string]string{} // name -> sigKey
+	for _, ln := range strings.Split(string(b), "\n") {
+		if i := strings.IndexByte(ln, '\t'); i > 0 {
+			base[ln[:i]] = ln[i+1:]
+		}
+	}
+	cur := map[string]*ssa.Function{}
+	loadedPkgs := map[string]bool{}
+	for _, fn := range c.all {
+		if fn.Parent() != nil || strings.HasPrefix(fn.Synthetic, "instance of") {
+			continue
+		}
+		cur[rawName(fn)] = fn
+		if p := FuncPkg(fn); p != nil {
+			loadedPkgs[p.Path()] = true
+		}
+	}
+	// candidates: new functions by signature key
+	added := map[string][]*ssa.Function{}
+	for n, fn := range cur {
+		if _, ok := base[n]; !ok {
+			added[sigKey(fn)] = append(added[sigKey(fn)], fn)
+		}
+	}
+	missingBySig := map[string][]string{}
+	for n, sk := range base {
+		if _, ok := cur[n]; ok {
+			continue
+		}
+		pk := sk[:strings.IndexByte(sk, '|')]
+		if !loadedPkgs[pk] {
+			continue // package not loaded in this run
+		}
+		missingBySig[sk] = append(missingBySig[sk], n)
+	}
+	for sk, names := range missingBySig {
+		if len(names) == 1 && len(added[sk]) == 1 {
+			renamed[added[sk][0]] = names[0]
+		}
+	}
 }
